@@ -27,7 +27,7 @@ var (
 
 // c16Prop: the property this harness reports for (the same exploration is a part of C05 and C06, see fail()).
 var c16Prop = func() string {
-	if p := os.Getenv("VERIF_PROP"); p == "C05" || p == "C06" || p == "C14" {
+	if p := os.Getenv("VERIF_PROP"); p == "C05" || p == "C06" || p == "C14" || p == "C01" {
 		return p
 	}
 	return "C16"
@@ -57,7 +57,9 @@ func c16Scenario(c *choice.Ctx, rep *report.R) {
 		if c16Prop != "C16" {
 			// run as a part of C05 / C06: only what those properties state about the fallback path (a returned message is a reply
 			// the server sent to this exchange, caller's id restored); as a part of C14: the exchange returns by its deadline
-			if !(c16Shared[sig] && c16Prop != "C14") && !(c16Prop == "C14" && (sig == "missed-deadline" || sig == "panic" || sig == "nil-nil")) {
+			if !(c16Shared[sig] && c16Prop != "C14" && c16Prop != "C01") && !(c16Prop == "C14" && (sig == "missed-deadline" || sig == "panic" || sig == "nil-nil")) &&
+				!(c16Prop == "C01" && (sig == "panic" || sig == "nil-nil" || sig == "missed-deadline")) {
+				// (C01: whatever the server sends on either leg, the exchange ends with a message or an error - a (nil, nil) makes the router dereference nil)
 				return
 			}
 			sig = "udp-fallback:" + sig
